@@ -64,11 +64,11 @@ DesignRows(ast, ng) ==
                         : p \in 0..Len(t) }
                 : k \in 1..Len(Texts) }
 
-VARIABLES l, nok, nrej, nexcl, ncerr, ncells, npos
-vars == <<l, nok, nrej, nexcl, ncerr, ncells, npos>>
-\* nexcl counts the records of a finding's class: judged against the design model instead of RefSem
+VARIABLES l, nok, nrej, nexcl, ncerr, ncells, npos, ndes
+vars == <<l, nok, nrej, nexcl, ncerr, ncells, npos, ndes>>
+\* nexcl = records of a finding's class left unjudged; ndes = records of the class judged against the design model
 
-Init == l = 1 /\ nok = 0 /\ nrej = 0 /\ nexcl = 0 /\ ncerr = 0 /\ ncells = 0 /\ npos = 0
+Init == l = 1 /\ nok = 0 /\ nrej = 0 /\ nexcl = 0 /\ ncerr = 0 /\ ncells = 0 /\ npos = 0 /\ ndes = 0
 
 RECURSIVE SumCells(_)
 SumCells(k) == IF k = 0 THEN 0 ELSE Len(Texts[k]) + 1 + SumCells(k - 1)
@@ -81,14 +81,14 @@ TStep ==
    /\ l' = l + 1
    /\ LET c == Rec[l] IN
       IF c.st # "ok"
-      THEN /\ ncerr' = ncerr + 1 /\ UNCHANGED <<nok, nrej, nexcl, ncells, npos>>
+      THEN /\ ncerr' = ncerr + 1 /\ UNCHANGED <<nok, nrej, nexcl, ncells, npos, ndes>>
            /\ Emit("CERR", [id |-> c.id, pat |-> c.pat, ek |-> c.ek])
       ELSE IF Excluded(SemAst(c)) /\ ~DesignJudgeable(c.ast, c.ng)
-      THEN /\ nexcl' = nexcl + 1 /\ UNCHANGED <<nok, nrej, ncerr, ncells, npos>>
+      THEN /\ nexcl' = nexcl + 1 /\ UNCHANGED <<nok, nrej, ncerr, ncells, npos, ndes>>
       ELSE IF Excluded(SemAst(c))
       THEN LET exp == TLCEval(DesignRows(c.ast, c.ng))
                log == TLCEval(LoggedRows(c))
-           IN /\ nexcl' = nexcl + 1 /\ UNCHANGED <<nok, ncerr, ncells, npos>>
+           IN /\ ndes' = ndes + 1 /\ UNCHANGED <<nok, nexcl, ncerr, ncells, npos>>
               /\ IF exp = log THEN UNCHANGED nrej
                  ELSE /\ nrej' = nrej + 1
                       /\ Emit("REJECT", [id |-> c.id, pat |-> c.pat, ast |-> c.ast, base |-> c.ast, ng |-> c.ng, design |-> TRUE,
@@ -98,7 +98,7 @@ TStep ==
                log == TLCEval(LoggedRows(c))
            IN /\ ncells' = ncells + Cardinality(exp)
               /\ npos' = npos + (IF exp # {} THEN 1 ELSE 0)
-              /\ UNCHANGED <<nexcl, ncerr>>
+              /\ UNCHANGED <<nexcl, ncerr, ndes>>
               /\ (Lemma /\ "base" \in DOMAIN c /\ ExpectedRows(c.ast, c.ng) # exp
                     => Emit("LEMMAFAIL", [id |-> c.id, pat |-> c.pat]))
               /\ (("toks" \in DOMAIN c /\ c.sametree /\ c.tree # c.tree0)
@@ -113,8 +113,8 @@ TStep ==
 Done == /\ l = Len(Rec) + 1
         /\ l' = l + 1
         /\ Emit("STATS", [records |-> Len(Rec), ok |-> nok, rejected |-> nrej, excluded |-> nexcl, cerr |-> ncerr,
-                           matching_cells |-> ncells, patterns_with_match |-> npos, cells_per_pattern |-> CellsPerPattern])
-        /\ UNCHANGED <<nok, nrej, nexcl, ncerr, ncells, npos>>
+                           matching_cells |-> ncells, patterns_with_match |-> npos, cells_per_pattern |-> CellsPerPattern, design_judged |-> ndes])
+        /\ UNCHANGED <<nok, nrej, nexcl, ncerr, ncells, npos, ndes>>
 
 Next == TStep \/ Done
 Spec == Init /\ [][Next]_vars
